@@ -6,6 +6,7 @@ package props
 import (
 	"encoding/json"
 	"fmt"
+	"runtime"
 	"strings"
 	"testing"
 
@@ -231,6 +232,28 @@ func TestFixedC19DegenerateOps(t *testing.T) {
 	}
 	if got := p.state()["T0"][u(1)]; got["n"].Key() != "[i5]" || got["r"].Key() != "[r1.5]" {
 		t.Errorf("VERIF-FAIL property=C19 class=atomicity.state-changed: %s", got.Key())
+	}
+}
+
+// A where clause with n equality conditions made the cache try all 2^n subsets of them as
+// indexes: 20 conditions allocated ~450 MB, 30 would need hundreds of GB. The pinned input
+// stays at 20 and bounds the allocation (deterministic, no clock).
+func TestFixedC19ConditionPowerSet(t *testing.T) {
+	p := newPinned(t, schemaPlain)
+	p.mustOK(fmt.Sprintf(`[{"op":"insert","table":"T0","uuid":"%s","row":{"name":"a","n":5}}]`, u(1)))
+	var conds []string
+	for i := 0; i < 20; i++ {
+		conds = append(conds, fmt.Sprintf(`["n","==",%d]`, i%3))
+	}
+	var before, after runtime.MemStats
+	runtime.ReadMemStats(&before)
+	js, failed, rs := p.txn(`[{"op":"select","table":"T0","where":[` + strings.Join(conds, ",") + `]}]`)
+	runtime.ReadMemStats(&after)
+	if failed || len(rs) != 1 || len(rs[0].Rows) != 0 {
+		t.Fatalf("VERIF-FAIL property=C19 class=result.wrong: select with 20 conditions: %s", js)
+	}
+	if mb := (after.TotalAlloc - before.TotalAlloc) >> 20; mb > 64 {
+		t.Fatalf("VERIF-FAIL property=C19 class=resource.memory-or-crash: a select with 20 equality conditions allocated %d MB (doubling with every condition)", mb)
 	}
 }
 
